@@ -199,8 +199,11 @@ def weave(src, only_targets=None):
         with open(path, "a") as f:
             for frag in frags:
                 body = open(frag).read()
-                f.write("\n\n#[cfg(kani)]\n#[allow(unused_imports, dead_code, unused_variables, unused_mut, static_mut_refs, clippy::all)]\n"
-                        "pub(crate) mod %s {\n    use super::*;\n%s\n}\n" % (frag_mod_name(frag), body))
+                # optional first-line directive `// @cfg <predicate>`: e.g. modules that only exist with cfg(not(test))
+                m = re.match(r"\s*// @cfg (.+)\n", body)
+                cfg = "all(kani, %s)" % m.group(1).strip() if m else "kani"
+                f.write("\n\n#[cfg(%s)]\n#[allow(unused_imports, dead_code, unused_variables, unused_mut, static_mut_refs, clippy::all)]\n"
+                        "pub(crate) mod %s {\n    use super::*;\n%s\n}\n" % (cfg, frag_mod_name(frag), body))
                 record["appended"].append({"file": target, "fragment": os.path.relpath(frag, VERIF),
                                            "sha256": hashlib.sha256(body.encode()).hexdigest()[:16]})
     # 3. spec functions into lib.rs
